@@ -4,6 +4,9 @@ use crate::l0::*;
 use crate::refmodel::*;
 
 pub fn run(ctx: &Ctx) {
+    if !crate::l0::L0_DIRECT {
+        ctx.note("the signatures of the public instruction functions in the working tree differ from the L0 tables: the harness was built without the direct calls, the L0 sweeps are skipped and the L1 (assembler + interpreter) and L3 (CLI) parts decide");
+    }
     ctx.set_rule("L0: all 256 byte values x all 256 counts x CF_in x 3 prior flag words for the 7 shift/rotate functions, all 2^16 byte pairs for AND/OR/XOR/TEST (enumerated, distinct by construction); word values: lattice L16 x all 256 counts x CF_in in quick, all 65536 values x 256 counts x CF_in in thorough; word logic on lattice^2. L1: every operand form (register, memory, data label; immediate and CL counts) through Preprocessor+Interpreter with whole-machine comparison. Non-trivial = count outside 1..4 (0, >= width, multiples of width / width+1), rotate through carry with count >= 2, or memory/label destination.");
     ctx.assume("shift/rotate reference = `count` repetitions of the manual's single-bit step (no count masking: 8086), self-checked against closed forms; OF compared only for count 1, AF not compared for logic/shifts (undefined in the manual)");
     let openq = Quirks::none();
